@@ -83,7 +83,9 @@ VerifyLevel(c) == IF c.kind = "P2PK" THEN P2PKVerify(c) ELSE HTLCVerify(c)
 \* c.ep   : "verify" | "swap" | "melt"
 \* c.pos  : position of the locked proof among honest plain inputs: "only" | "first" | "middle" | "last"
 \* c.osig : what the swap outputs carry: "none" | "valid" (helper-signed by the lock/co-signer key,
-\*          plus the right preimage for HTLC) | "garbage" | "onemissing"
+\*          plus the right preimage for HTLC) | "garbage" | "onemissing" | witnesses that differ per output, every output validly
+\*          signed by somebody: "laterbad" (only the first output carries the right preimage / an authorised signature),
+\*          "firstbad" (all but the first), "latermissing" (later outputs: signatures but no preimage / no witness)
 Verdict(c) ==
   LET v == VerifyLevel(c) IN
   CASE c.ep = "verify" -> v
@@ -149,7 +151,7 @@ MintCases ==
     hash |-> "ok", pre |-> (IF k = "HTLC" THEN pr ELSE "absent"), ep |-> ep, pos |-> pos, osig |-> os, pair |-> "none"] :
      k \in {"P2PK", "HTLC"}, n \in {-1, 1, 2, 3}, p \in {0, 2}, lt \in LockTimes, r \in {0, 1}, f \in Flags, w \in MintWits,
      pr \in {"right", "wrong"}, ep \in {"swap", "melt"}, pos \in {"only", "first", "middle", "last"},
-     os \in {"none", "valid", "garbage", "onemissing"}}
+     os \in {"none", "valid", "garbage", "onemissing", "laterbad", "firstbad", "latermissing"}}
 
 \* a seeded slice of the mint-level table in the quick tier, everything in the thorough tier
 Seed == IF "VERIF_SEED" \in DOMAIN IOEnv THEN IOEnv.VERIF_SEED ELSE "1"
